@@ -291,6 +291,25 @@ def truncNorm [Add K] [Div K] [Zero K] [LT K] [DecidableLT K] (eps : K) (row : L
   let t := row.map fun p => if p < eps then 0 else p
   t.map (· / lsum t)
 
+/-- the (MProcess, State) → (Povm, StateEnsemble) path WITH its thresholds, as coded
+(`_compose_qoperations_MProcess_State_for_States`, `_compose_qoperations_Povm_StateEnsemble`, `(Povm, State)`):
+`p_x = r·(hs_x ρ)[0]`; `p_x ≤ eps_zero` is clipped to 0 (`truncate`); if something was clipped and the sum is not 0 the
+probabilities are renormalised; the post state is `hs_x ρ / p_x` with the UNrenormalised `p_x` (zero state when clipped);
+an ensemble member of weight `< eps_zero` contributes zeros, the others `weight · truncate_and_normalize(E_y · ρ_x)`.
+(The re-normalisations inside `MultinomialDistribution` are C16's; they are the identity on proper distributions.) -/
+def circuitPovmMprocessStateEps [Add K] [Mul K] [Div K] [Zero K] [DecidableEq K] [LT K] [DecidableLT K]
+    [LE K] [DecidableLE K] (r epsZero epsTrunc : K)
+    (povm : List (List K)) (hss : List (List (List K))) (rho : List K) : List K :=
+  let ms := hss.map fun hs => matVec hs rho
+  let raw := ms.map fun mrho => (let p := r * firstEntry mrho; if p ≤ epsZero then 0 else p)
+  let truncate := ms.any fun mrho => decide (r * firstEntry mrho ≤ epsZero)
+  let total := lsum raw
+  let ps := if truncate && decide (total ≠ 0) then raw.map (· / total) else raw
+  ((ms.zip raw).zip ps).flatMap fun ((mrho, pRaw), w) =>
+    let rhoX := if pRaw = 0 then mrho.map fun _ => 0 else mrho.map (· / pRaw)
+    if w < epsZero then povm.map fun _ => 0
+    else (truncNorm epsTrunc (bornPovmState povm rhoX)).map (w * ·)
+
 /-- `calc_prob_dists`: `tmp.reshape((num_schedules, -1))` then `truncate_and_normalize` row by row.
 The reshape ignores the schedules' own outcome counts. -/
 def calcProbDists [Add K] [Mul K] [Div K] [Zero K] [LT K] [DecidableLT K] (eps : K) (numSched : Nat)
@@ -387,6 +406,16 @@ def qmptCircuitWalk [Add K] [Mul K] [Sub K] [Div K] [Zero K] [One K] [DecidableE
     let povm ← povms[j]?
     pure (circuitPovmMprocessState r povm (mprocessOf flag n m var) rho)
 
+/-- the QMPT circuit with the thresholds of the code (`eps_zero` of the measurement process, `atol` of
+`truncate_and_normalize`) -/
+def qmptCircuitWalkEps [Add K] [Mul K] [Sub K] [Div K] [Zero K] [One K] [DecidableEq K] [LT K] [DecidableLT K]
+    [LE K] [DecidableLE K] (flag : Bool) (r epsZero epsTrunc : K) (n m : Nat) (states : List (List K))
+    (povms : List (List (List K))) (scheds : List (Nat × Nat)) (var : List K) : Option (List (List K)) :=
+  scheds.mapM fun (i, j) => do
+    let rho ← states[i]?
+    let povm ← povms[j]?
+    pure (circuitPovmMprocessStateEps r epsZero epsTrunc povm (mprocessOf flag n m var) rho)
+
 /-- driver dispatch -/
 def circuitOf (kind : String) (flag : Bool) (r : Rat) (n m : Nat) (states : List (List Rat))
     (povms : List (List (List Rat))) (scheds : List (Nat × Nat)) (var : List Rat) (walk : Bool) :
@@ -451,6 +480,15 @@ def handle (args : List String) : Option String :=
       let states ← parseVecs? states; let povms ← parsePovms? povms; let scheds ← parsePairs? scheds
       let var ← parseVecL? var
       match ← circuitOf kind flag r n m states povms scheds var walk with
+      | some d => some s!"ok {showVecs d}"
+      | none => some "err index"
+  -- circuiteps flag r epsZero epsTrunc n m states povms scheds var → the QMPT circuit with its thresholds
+  | ["circuiteps", flag, r, epsZero, epsTrunc, n, m, states, povms, scheds, var] => do
+      let flag ← parseBool? flag; let r ← parseRat? r; let e0 ← parseRat? epsZero; let e1 ← parseRat? epsTrunc
+      let n ← parseNat? n; let m ← parseNat? m
+      let states ← parseVecs? states; let povms ← parsePovms? povms; let scheds ← parsePairs? scheds
+      let var ← parseVecL? var
+      match qmptCircuitWalkEps flag r e0 e1 n m states povms scheds var with
       | some d => some s!"ok {showVecs d}"
       | none => some "err index"
   -- objof kind flag r n m var → the object built from var, as a flat list of rows
